@@ -18,7 +18,9 @@ where
 {
     fn write_xml(&self, writer: &mut W) -> WriterResult<()> {
         for (operation_name, operation) in &self.operations {
-            writeln!(writer, "\n/* {operation_name} */\n")?;
+            // the name must not be able to end (or nest) the comment it is written into
+            let comment = operation_name.replace("*/", "* /").replace("/*", "/ *");
+            writeln!(writer, "\n/* {comment} */\n")?;
 
             // input
             let operation_name = to_pascal_case(operation_name);
